@@ -204,7 +204,13 @@ def run_history_c24(ch, tr: Trace) -> None:
     def op_add():
         n = 1 if ch.flag(2, 3) else ch.rng(2, 3)
         gs = [new_grid(ch.choice([1, 2, 0, 3])) for _ in range(n)]
-        mdg.add_subdomains(gs[0] if (n == 1 and ch.flag()) else gs)
+        if n == 1 and ch.flag():
+            mdg.add_subdomains(gs[0])
+        else:
+            handed = list(gs)
+            mdg.add_subdomains(handed)
+            if ch.flag(1, 3):
+                handed.clear()  # the caller reuses its list
         for g in gs:
             subs.append(g)
             data_id[g] = id(mdg.subdomain_data(g))
